@@ -379,13 +379,11 @@ func (dn *dirNode) size() int64 {
 
 // fileNode
 
-// delete removes all information from the node, decrements the reference counter of the fileNode.
-// If there is no more references, the data is deleted.
+// delete decrements the reference counter of the fileNode.
+// The data is kept : files still open on the node go on reading and writing it,
+// and it is released with the node once nothing refers to it any more.
 func (fn *fileNode) delete() {
 	fn.nlink--
-	if fn.nlink == 0 {
-		fn.data = nil
-	}
 }
 
 // fillStatFrom returns a MemInfo (implementation of fs.FileInfo) from a fileNode fn named name.
